@@ -32,6 +32,9 @@ CFG = dict(
          "(h) END-TO-END: pprof started through driver.PProf with option flags and -http; /saveconfig, /deleteconfig and the Config menu read back "
          "from served HTML; deterministic in every quick run: names changing under URL decoding stored with their decoded twins, saving over the "
          "entry the menu marks current while flags shape the view, a refused command line; random: 30 histories of flags x names x requests; "
+         "(i) leftovers: stray files (a long settings.json.tmp, other .tmp*, ~, .bak, .swp, a directory) next to settings.json before the "
+         "requests of every other seq-failed-edit / every third seq-random case and of three deterministic seq-stray cases; fs-kill-then-edit: "
+         "after every kill point a NEW process deletes / renders / saves / deletes on top of what the killed save left; "
          "(g) burst: the FIRST edits a never-edited settings file sees arrive simultaneously (spin barrier, 3-8 requests with distinct names, "
          "half through the HTTP handlers); the final file is compared up to order with the sequential result. "
          "distinct = sha256 of the input term; non-trivial = URL changed (url), non-empty query (apply), at least one successful edit (seq), always (conc, fs)",
